@@ -1197,7 +1197,7 @@ BASE_MODELS = [
     (R(r"^std::fmt::format$|^format$|^alloc::fmt::format$"), m_fmt_format),
     (R(r"^Arguments::<'_>::from_str_nonconst$"), m_fmt_from_str),
     (R(r" as ToString>::to_string$"), m_to_string_display),
-    (R(r"^Vec::<.*>::new$|^<Vec<.*> as Default>::default$"), m_vec_new),
+    (R(r"^Vec::<.*>::new$|^Vec::<.*>::with_capacity$|^<Vec<.*> as Default>::default$"), m_vec_new),
     (R(r"^Vec::<.*>::len$|^core::slice::<impl \[.*\]>::len$"), m_vec_len),
     (R(r"^Vec::<.*>::is_empty$|^core::slice::<impl \[.*\]>::is_empty$"), m_vec_is_empty),
     (R(r"^Vec::<.*>::push$"), m_vec_push),
